@@ -123,6 +123,21 @@ def _surface(mn, params, P, ctx):
         a = ax[mn[2]]
         o = [i for i in range(3) if i != a]
         return _sides(n.sub(n.add(n.sq(n.sub(P[o[0]], p[0])), n.sq(n.sub(P[o[1]], p[1]))), n.sq(p[2])))
+    if mn == 'C':
+        # generic cylinder x y z r A B C (not an MCNP card: produced for RCC facets)
+        _need(mn, p, 7)
+        d = n.vsub(P, p[0:3])
+        u = p[4:7]
+        uu = n.dot(u, u)
+        return _sides(n.sub(n.sub(n.mul(n.dot(d, d), uu), n.sq(n.dot(d, u))), n.mul(n.sq(p[3]), uu)))
+    if mn == 'K':
+        # generic two-sheet cone x y z tan A B C (not an MCNP card: produced for TRC facets)
+        _need(mn, p, 7)
+        d = n.vsub(P, p[0:3])
+        u = p[4:7]
+        uu = n.dot(u, u)
+        du = n.dot(d, u)
+        return _sides(n.sub(n.sub(n.mul(n.dot(d, d), uu), n.sq(du)), n.mul(n.sq(p[3]), n.sq(du))))
     if mn in ('KX', 'KY', 'KZ'):
         if len(p) not in (2, 3):
             raise RefError('%s needs 2 or 3 entries' % mn)
@@ -221,7 +236,7 @@ def _halfspace(normal, point, P):
     return n.dot(normal, n.vsub(P, point))
 
 
-def macrobody(mn, params, P, ctx):
+def macrobody(mn, params, P, ctx, form=None):
     """Returns (inside, outside, facets) with facets = list of (neg, pos) per MCNP
     facet number (outward side positive)."""
     mn = mn.upper()
@@ -313,7 +328,11 @@ def macrobody(mn, params, P, ctx):
         sheet = n.gt0(rr)
         cneg = n.And(n.lt0(f), sheet)
         cpos = n.Or(n.gt0(f), n.lt0(rr))
-        fs = [(cneg, cpos), _sides(_halfspace(h, n.vadd(v, h), P)), _sides(n.neg(_halfspace(h, v, P)))]
+        del cneg, cpos, sheet
+        # facet 1 is taken as the full (two-sheet) cone: between the two base planes only one sheet exists
+        # because both radii are positive, so the solid is the same; which sheet(s) MCNP attaches to facet
+        # .1 outside the slab is not documented.
+        fs = [_sides(f), _sides(_halfspace(h, n.vadd(v, h), P)), _sides(n.neg(_halfspace(h, v, P)))]
         return _convex(fs)
     if mn == 'WED':
         _need(mn, p, 12)
@@ -334,9 +353,13 @@ def macrobody(mn, params, P, ctx):
         return _convex(fs)
     if mn == 'ELL':
         _need(mn, p, 7)
-        if n.is_sym(p[6]):
-            raise RefError('ELL: sign of last entry must be known')
-        if p[6] < 0:
+        if form is None:
+            if n.is_sym(p[6]):
+                raise RefError('ELL: sign of last entry must be known')
+            form = -1 if p[6] < 0 else 1
+        if form > 0:
+            return ell_foci(p, P, ctx)
+        if form < 0:
             c, a, b = p[0:3], p[3:6], p[6]
             d = n.vsub(P, c)
             aa = n.dot(a, a)
@@ -368,8 +391,64 @@ def _rot(r, h, ctx, k):
     return tuple(out)
 
 
-def _convex(fs):
-    fs = [_np(f) for f in fs]
+class Body:
+    def __init__(self, inside, outside, facets, raw):
+        self.inside = inside
+        self.outside = outside
+        self.facets = facets      # [(neg, pos)] per MCNP facet number, outward side positive
+        self.raw = raw            # F/Cases/tuple per facet (implicit functions when available)
+
+    def __iter__(self):
+        return iter((self.inside, self.outside, self.facets))
+
+
+def _convex(raw):
+    fs = [_np(f) for f in raw]
     inside = n.And([f[0] for f in fs])
     outside = n.Or([f[1] for f in fs])
-    return inside, outside, fs
+    return Body(inside, outside, fs, raw)
+
+
+def ell_foci(p, P, ctx):
+    """ELL with positive last entry.  The manual's wording (two foci + major radius) does not match what
+    MCNP does (see the docstring of MacroBodies.ell, validated by the authors against MCNP): the two points
+    are the ends used to place the centre and the axis, the major semi-axis is the last entry R and the
+    squared minor semi-axis is R^2 - (R - |p1 - centre|)^2.  Restated here independently."""
+    f1, f2, R = p[0:3], p[3:6], p[6]
+    c = n.vscale(Fraction(1, 2), n.vadd(f1, f2))
+    e = n.vsub(f1, c)                      # axis direction (length irrelevant)
+    ee = n.dot(e, e)
+    el = ctx.sqrt(ee)
+    b2 = n.sub(n.sq(R), n.sq(n.sub(R, el)))
+    d = n.vsub(P, c)
+    de = n.dot(d, e)
+    # (d.e)^2/(ee R^2) + (|d|^2 - (d.e)^2/ee)/b2 - 1 ; times ee R^2 b2  (b2 > 0 is an admissibility condition)
+    f = n.sub(n.add(n.mul(n.sq(de), b2), n.mul(n.sub(n.mul(n.dot(d, d), ee), n.sq(de)), n.sq(R))),
+              n.mul(n.mul(ee, n.sq(R)), b2))
+    return _convex([_sides(f)])
+
+
+def arb(p, P, ctx):
+    """ARB: 8 vertices, 6 facet descriptors (digits = vertex numbers, 0 = unused).  Convex polyhedron:
+    a point is inside iff it lies, for every facet plane (through the first three listed vertices), on
+    the side of the centroid of the used vertices."""
+    verts = [p[3 * i:3 * i + 3] for i in range(8)]
+    descr = [int(x) for x in p[24:30]]
+    facets = []
+    used = set()
+    for dsc in descr:
+        idx = [int(ch) - 1 for ch in str(dsc) if ch != '0']
+        if idx:
+            facets.append(idx)
+            used.update(idx)
+    nv = len(used)
+    vs = verts[:nv]
+    cen = n.vscale(Fraction(1, nv), (n.ssum(v[0] for v in vs), n.ssum(v[1] for v in vs), n.ssum(v[2] for v in vs)))
+    raw = []
+    for idx in facets:
+        a, b, c = (verts[i] for i in idx[:3])
+        nrm = n.cross(n.vsub(b, a), n.vsub(c, a))
+        side_c = n.dot(nrm, n.vsub(cen, a))          # != 0 for an admissible body
+        val = n.dot(nrm, n.vsub(P, a))
+        raw.append(_sides(n.neg(n.mul(val, side_c))))   # negative on the centroid's side
+    return _convex(raw)
